@@ -31,6 +31,13 @@ func init() {
 			}
 			return v
 		},
+		"verifPick": func(ex *Exec, fn *ssa.Function, args []Value) Value {
+			// like verifIntIn, but the value is made concrete at once (one path per value)
+			v := verifIntrinsics["verifIntIn"](ex, fn, args).(*Term)
+			lo, hi := ex.concInt(args[1], "verifPick"), ex.concInt(args[2], "verifPick")
+			k := ex.concretize(v, int(lo), int(hi), "pick")
+			return BVConst(uint64(int64(k)), 64)
+		},
 		"verifI32": func(ex *Exec, fn *ssa.Function, args []Value) Value {
 			return ex.newInput(ex.concStr(args[0], "verifI32"), "int", SortBV(32))
 		},
